@@ -90,6 +90,22 @@ def amounts(var, n):
         out.append("loop %d invariant amounts: " % k + (eq % (var, var, var, var)) + " [C04]")
     return out
 c04extra = {"parse_find": amounts("findCommand", 1), "parse_replace": amounts("replaceCommand", 2)}
+# C01, leaves of the parser: the node carries the token's own text, the negation flag it was called with,
+# and the character class the words name (`line start`, `whole word`, ...)
+c04extra["parse_string"] = ["ensures leaf: result.2 == nil ==> result.0.Value == tokens[token_index].Lexeme && result.0.Not == not && !result.0.Caseless && result.1 == token_index + 1 [C01]"]
+c04extra["parse_caseless"] = ["ensures leaf: result.2 == nil ==> result.0.Value == tokens[firstSig(tokens, token_index + 1)].Lexeme && !result.0.Not && result.0.Caseless && result.1 == firstSig(tokens, token_index + 1) + 1 [C01]"]
+c04extra["parse_character_class"] = [
+    "let ta := tokens[token_index].TokenType",
+    "let b := firstSig(tokens, token_index + 1)",
+    "let tb := tokens[b].TokenType",
+    "ensures flag: result.2 == nil ==> result.0.Not == not [C01]",
+    "ensures one: (ta == ANY || ta == WHITESPACE || ta == DIGIT || ta == UPPER || ta == LOWER || ta == LETTER) ==> result.2 == nil && result.1 == token_index + 1 && result.0.ClassType == (ta == ANY ? ClassAny : (ta == WHITESPACE ? ClassWhitespace : (ta == DIGIT ? ClassDigit : (ta == UPPER ? ClassUpper : (ta == LOWER ? ClassLower : ClassLetter))))) [C01]",
+    "ensures line: ta == LINE && (tb == START || tb == END) ==> result.2 == nil && result.1 == b + 1 && result.0.ClassType == (tb == START ? ClassLineStart : ClassLineEnd) [C01]",
+    "ensures file: ta == FILE && (tb == START || tb == END) ==> result.2 == nil && result.1 == b + 1 && result.0.ClassType == (tb == START ? ClassFileStart : ClassFileEnd) [C01]",
+    "ensures word: ta == WORD && (tb == START || tb == END) ==> result.2 == nil && result.1 == b + 1 && result.0.ClassType == (tb == START ? ClassWordStart : ClassWordEnd) [C01]",
+    "ensures whole: ta == WHOLE && (tb == LINE || tb == FILE || tb == WORD) ==> result.2 == nil && result.1 == b + 1 && result.0.ClassType == (tb == LINE ? ClassWholeLine : (tb == FILE ? ClassWholeFile : ClassWholeWord)) [C01]",
+    "ensures other: !(ta == ANY || ta == WHITESPACE || ta == DIGIT || ta == UPPER || ta == LOWER || ta == LETTER || ((ta == LINE || ta == FILE || ta == WORD) && (tb == START || tb == END)) || (ta == WHOLE && (tb == LINE || tb == FILE || tb == WORD))) ==> result.2 != nil [C01]",
+]
 w("//@ specfunc amtAll(Slice, Int) Bool")
 w("//@ specfunc amtSkip(Slice, Int) Int")
 w("//@ specfunc amtTake(Slice, Int) Int")
